@@ -154,7 +154,14 @@ impl Axecutor {
                                 "ELF: preexisting TLS area is too small"
                             );
                             debug_log!("ELF: TLS area already exists, reusing it");
-                            segment.p_vaddr + a.len()
+                            match segment.p_vaddr.checked_add(a.len()) {
+                                Some(end) => end,
+                                None => {
+                                    return Err(AxError::from(
+                                        "ELF: TLS area ends beyond the address space",
+                                    ))
+                                }
+                            }
                         }
                         None => Err(AxError::from("ELF: TLS area does not exist, but expected it to be created by previous LOAD program header"))?,
                     };
